@@ -235,6 +235,7 @@ func NewAtom(name string) Atom {
 	a = Atom(len(atomTable.names) + (utf8.MaxRune + 1))
 	atomTable.atoms[name] = a
 	atomTable.names = append(atomTable.names, name)
+	verifOnIntern(name, a, len(atomTable.names))
 	return a
 }
 
